@@ -259,7 +259,12 @@ def rule_views(run):
     views.run_rule(run, "F-VIEW")
 
 
-RULES = [rule_roles, rule_usage, rule_local, rule_views]
+def rule_writeback(run):
+    from ..rules import roles as _roles
+    _roles.run_writeback_rule(run, "F-WRITEBACK")
+
+
+RULES = [rule_roles, rule_usage, rule_local, rule_views, rule_writeback]
 LEVEL = "other"
 EXPLANATION = (
     "The single-driver guarantee rests on hand-written access flags and one usage check; both are decided for all "
